@@ -32,6 +32,10 @@ type reqSpec struct {
 	Close     bool // Connection: close
 	KeepAlive bool // Connection: keep-alive (HTTP/1.1 only, no semantics)
 	Gzip      bool // client advertised gzip itself
+	// Early: the origin answers as soon as it has the request head, before
+	// ("drain": then reads the rest) or instead of ("noread": never reads
+	// another byte) reading the multi-megabyte body. "" = ordinary exchange.
+	Early string
 }
 
 type resSpec struct {
@@ -71,7 +75,10 @@ var reasons = map[int]string{200: "OK", 201: "Created", 204: "No Content", 206: 
 const unreserved = "abcdefghijklmnopqrstuvwxyzABCDEFGHIJKLMNOPQRSTUVWXYZ0123456789-._~"
 const subdelims = "!$&'()*+,;="
 
-var pcts = []string{"%41", "%7e", "%20", "%2F", "%C3%A9", "%25", "%3F", "%23", "%00", "%e2%82%ac", "%2b"}
+var pcts = []string{"%41", "%7e", "%20", "%2F", "%C3%A9", "%25", "%3F", "%23", "%00", "%e2%82%ac", "%2b", "%2f", "%3B", "%3A", "%40", "%2C", "%26", "%3D", "%28", "%5B"}
+
+// fixed target shapes whose identity depends on the exact encoding
+var shapes = []string{"files/a%2Fb/c.txt", "Items(42)/Name!$value", "x(42)!", "a%3Ab%40c", "semi;v=1/p,q", "star*/it's", "plus+sign/%2B", "q%3Fnot-a-query", "frag%23ment", "pct%25sign", "colon:at@"}
 
 func genChars(rng *rand.Rand, n int, extra string) string {
 	var sb strings.Builder
@@ -335,11 +342,17 @@ func generate(rng *rand.Rand, c connCase, thorough bool) *plan {
 			if rng.Intn(25) == 0 {
 				seg = ".."
 			}
+			if rng.Intn(8) == 0 {
+				seg = shapes[rng.Intn(len(shapes))]
+			}
 			q.Path += "/" + seg
 		}
 		if rng.Intn(10) < 6 {
 			q.HasQuery = true
 			q.Query = genChars(rng, rng.Intn(30), "/?:@")
+			if rng.Intn(8) == 0 {
+				q.Query = "" // a bare "?"
+			}
 		}
 		if rng.Intn(16) == 0 {
 			q.Proto = "HTTP/1.0"
@@ -386,6 +399,25 @@ func generate(rng *rand.Rand, c connCase, thorough bool) *plan {
 				q.Close = true
 			case 1:
 				q.KeepAlive = true
+			}
+		}
+		// early answer: a body far larger than every buffer between client and
+		// origin (pipes 64 KiB, bufio 4 KiB), nobody asks to close
+		early := !c.TCP && c.Big && bigLeft > 0 && rng.Intn(14) == 0
+		if early {
+			bigLeft--
+			q.Early = []string{"drain", "noread"}[rng.Intn(2)]
+			q.Method = []string{"POST", "PUT", "PATCH"}[rng.Intn(3)]
+			q.Proto, q.Close = "HTTP/1.1", false
+			sz := 1<<20 + 3 + rng.Intn(1<<20)
+			if thorough && rng.Intn(3) == 0 {
+				sz = 3<<20 + rng.Intn(1<<20)
+			}
+			q.Body = vh.Stamp(stampID(c.Idx, i, 0), sz)
+			if rng.Intn(2) == 0 {
+				q.Framing, q.Chunks, q.ChunkExt = "chunked", chunking(rng, sz), false
+			} else {
+				q.Framing, q.Chunks = "cl", nil
 			}
 		}
 
@@ -450,6 +482,18 @@ func generate(rng *rand.Rand, c connCase, thorough bool) *plan {
 		}
 		if rng.Intn(20) == 0 || (s.Framing == "eof" && rng.Intn(2) == 0) {
 			s.Close = true
+		}
+		if early {
+			// a short, self-delimited, non-closing answer
+			s.Proto, s.Close = "HTTP/1.1", false
+			s.Status = []int{200, 401, 413, 301, 503}[rng.Intn(5)]
+			s.Reason = map[int]string{200: "OK", 401: "Unauthorized", 413: "Payload Too Large", 301: "Moved Permanently", 503: "Service Unavailable"}[s.Status]
+			s.Body = vh.Stamp(stampID(c.Idx, i, 1), []int{0, 1, 300, 4097}[rng.Intn(4)])
+			if rng.Intn(2) == 0 {
+				s.Framing, s.Chunks = "chunked", chunking(rng, len(s.Body))
+			} else {
+				s.Framing, s.Chunks = "cl", nil
+			}
 		}
 		p.Reqs = append(p.Reqs, q)
 		p.Ress = append(p.Ress, s)
